@@ -78,32 +78,14 @@ Proof.
   unfold interval_text. destruct (lookup_str u fields) as [[f w]|]; [discriminate | discriminate].
 Qed.
 
-(* the lexer reads the count exactly whenever it fits i64 (beyond: unwrap_or(1)) *)
+(* the lexer: an accepted interval literal has exactly the count its digits spell, and it fits i64 (full strength since
+   fix 8948ad3; before, a count beyond i64::MAX was read as 1) *)
 Theorem lex_interval_count units s n u r : lex_interval units s = Some (LInterval n u, r) ->
-  exists ip r1, parse_integer s = Some (ip, r1) /\ match_unit units r1 = Some (u, r) /\
-                (base_value 10 (no_us ip) <= I64_MAX -> n = base_value 10 (no_us ip)).
-Proof.
-  unfold lex_interval. destruct (parse_integer s) as [[ip r1]|]; [|discriminate].
-  destruct (match_unit units r1) as [[u' r2]|] eqn:M; [|discriminate]. destruct (end_expr r2); [|discriminate].
-  intro H. injection H as <- <- <-. exists ip, r1. split; [reflexivity|]. split; [exact M|].
-  intro Hle. apply N.leb_le in Hle. rewrite Hle. reflexivity.
-Qed.
-
-(* under the PROPOSED repair (fixes/C08-N1-*.diff) the statement is full strength: an accepted interval literal has
-   exactly the count its digits spell, and it fits i64; and the repair changes nothing for counts that fit *)
-Theorem lex_interval_checked_count units s n u r : lex_interval_checked units s = Some (LInterval n u, r) ->
   exists ip r1, parse_integer s = Some (ip, r1) /\ match_unit units r1 = Some (u, r) /\
                 n = base_value 10 (no_us ip) /\ n <= I64_MAX.
 Proof.
-  unfold lex_interval_checked. destruct (parse_integer s) as [[ip r1]|]; [|discriminate].
+  unfold lex_interval. destruct (parse_integer s) as [[ip r1]|]; [|discriminate].
   destruct (match_unit units r1) as [[u' r2]|] eqn:M; [|discriminate]. destruct (end_expr r2); [|discriminate].
   cbv zeta. destruct (base_value 10 (no_us ip) <=? I64_MAX) eqn:L; [|discriminate].
   intro H. injection H as <- <- <-. exists ip, r1. repeat split; try reflexivity; [exact M | apply N.leb_le, L].
-Qed.
-
-Theorem lex_interval_checked_agrees units s x : lex_interval_checked units s = Some x -> lex_interval units s = Some x.
-Proof.
-  unfold lex_interval_checked, lex_interval. destruct (parse_integer s) as [[ip r1]|]; [|discriminate].
-  destruct (match_unit units r1) as [[u' r2]|]; [|discriminate]. destruct (end_expr r2); [|discriminate].
-  cbv zeta. destruct (base_value 10 (no_us ip) <=? I64_MAX); [auto | discriminate].
 Qed.
